@@ -4,7 +4,7 @@ set -e
 cd "$(dirname "$0")"
 export CARGO_NET_OFFLINE=true
 python3 translator/rs2lean.py
-(cd lean && lake build)
+(cd lean && lake build hpxdriver $(for k in 01 02 03 04 05 06 07 08 09 10 11 12 13 14 15 16 17 18 19 20; do echo HpxVerif.Props.C$k; done))
 (cd harness && cargo build --offline -q 2>/dev/null && cargo build --offline -q --release 2>/dev/null)
 if grep -q ' bmi2' /proc/cpuinfo; then
   (cd harness && CARGO_TARGET_DIR=target/bmi2 RUSTFLAGS="--cfg cdshealpix_verif -C target-feature=+bmi2" cargo build --offline -q --release 2>/dev/null)
